@@ -721,6 +721,12 @@ HandleElementResult QXmppOutgoingClient::handleElement(const QDomElement &nodeRe
 
 void QXmppOutgoingClient::handleStreamFeatures(const QXmppStreamFeatures &features)
 {
+    // stream features are only expected while negotiating the stream
+    if (d->sessionStarted) {
+        warning(u"Ignoring stream features received in an established session"_s);
+        return;
+    }
+
     // STARTTLS
     if (handleStarttls(features)) {
         return;
